@@ -27,6 +27,10 @@ func init() {
 	varsCfg.faultPct, varsCfg.typeFaultPct, varsCfg.maxNodes = 4, 12, 2
 	varsCfg.loopPct, varsCfg.bareSetPct = 50, 35
 	register("vars", family{gen: func(r *rand.Rand, tier string) *sx.Node {
+		// half of the cases also take snapshots and restore them (variables then disappear from the store)
+		if r.Intn(2) == 0 {
+			return genRunnerCase(r, varsCfg, opsCfg{steps: 30, extraAfterEnd: 1, hostWrites: true, vals: true, storer: 1, snapshots: true, runners: 1, snapFreq: 4})
+		}
 		return genRunnerCase(r, varsCfg, opsCfg{steps: 30, extraAfterEnd: 1, hostWrites: true, vals: true, storer: 1})
 	}, run: runRunnerCase})
 	faultCfg := flowCfg
